@@ -1289,7 +1289,7 @@ impl<'a> Query<'a> {
         let mut constraint_attributes = Vec::new();
         match querystring.split(QUERYSPLITCHARS).next() {
             Some("WHERE") => querystring = querystring["WHERE".len()..].trim_start(),
-            Some("{") | Some("") | None => {} //no-op (select all, end of query, no where clause)
+            Some("{") | Some("}") | Some("|") | Some("") | None => {} //no-op (select all, end of query or of sub-query, no where clause)
             _ => {
                 return Err(StamError::QuerySyntaxError(
                     format!(
@@ -1817,6 +1817,9 @@ impl<'a> Query<'a> {
                 }
                 s.push(' ');
                 s += &subquery.to_string()?;
+            }
+            if !s.ends_with('\n') {
+                s.push('\n'); //a name must not run into the closing brace
             }
             s += "}";
         }
@@ -4554,7 +4557,13 @@ impl<'a> Assignment<'a> {
                 DataValue::String(v) => Ok(format!("DATA \"{}\" \"{}\" \"{}\";", set, key, v)),
                 DataValue::Bool(v) => Ok(format!("DATA \"{}\" \"{}\" {};", set, key, v)),
                 DataValue::Int(v) => Ok(format!("DATA \"{}\" \"{}\" {};", set, key, v)),
-                DataValue::Float(v) => Ok(format!("DATA \"{}\" \"{}\" {:?};", set, key, v)),
+                DataValue::Float(v) => {
+                    let mut f = format!("{}", v);
+                    if !f.contains('.') && v.is_finite() {
+                        f += ".0"; //so it is read as a float again
+                    }
+                    Ok(format!("DATA \"{}\" \"{}\" {};", set, key, f))
+                }
                 _ => Err(StamError::QuerySyntaxError(
                     format!(
                         "There is no query syntax for this value in an assignment: {:?}",
